@@ -249,6 +249,14 @@ package swap
 // C16/C17: every waiting state accepts the events that end the wait; the
 // negotiation waits accept Event_OnTimeout, route it to State_SendCancel, and
 // fail over on recovery (timers live in memory only) telling the peer.
+// the timeout armed by the creating action stays armed: the context handed to the
+// timeout service is not cancelled by the action that arms it (a call of a
+// context.CancelFunc is recorded in ghost.cancelCalled by the verifier)
+//@ ghost cancelCalled bool
+//@ stepinv getSwapOutReceiverStates State_SwapOutReceiver_CreateSwap @C17 timeout-stays-armed: ghost.cancelCalled == old(ghost.cancelCalled)
+//@ stepinv getSwapInReceiverStates State_SwapInReceiver_CreateSwap @C17 timeout-stays-armed: ghost.cancelCalled == old(ghost.cancelCalled)
+//@ stepinv getSwapOutSenderStates State_SwapOutSender_CreateSwap @C17 timeout-stays-armed: ghost.cancelCalled == old(ghost.cancelCalled)
+//@ stepinv getSwapInSenderStates State_SwapInSender_CreateSwap @C17 timeout-stays-armed: ghost.cancelCalled == old(ghost.cancelCalled)
 //@ table getSwapOutSenderStates edge @C17,C16 State_SwapOutSender_AwaitAgreement Event_OnTimeout State_SendCancel
 //@ table getSwapOutSenderStates failonrecover @C17,C16 State_SwapOutSender_AwaitAgreement true
 //@ table getSwapOutSenderStates edge @C17 State_SwapOutSender_AwaitAgreement Event_ActionFailed State_SendCancel
@@ -290,7 +298,7 @@ package swap
 //@ event Event_OnTxConfirmed havoc OpeningTxHex
 
 // ---- swap-out sender (taker, initiator) ----
-//@ stateunits getSwapOutSenderStates C01 C04 C05 C06 C12 C13 C16 C23
+//@ stateunits getSwapOutSenderStates C01 C04 C05 C06 C12 C13 C16 C17 C23
 //@ table getSwapOutSenderStates set Started State_SwapOutSender_CreateSwap State_SwapOutSender_SendRequest State_SwapOutSender_AwaitAgreement State_SwapOutSender_PayFeeInvoice State_SwapOutSender_AwaitTxBroadcastedMessage State_SwapOutSender_AwaitTxConfirmation State_SwapOutSender_ValidateTxAndPayClaimInvoice State_SwapOutSender_ClaimSwap State_SwapOutSender_SendPrivkey State_SwapOutSender_SendCoopClose State_SendCancel State_SwapCanceled State_ClaimedPreimage State_ClaimedCoop
 //@ entryinv getSwapOutSenderStates Started @C01,C04,C12,C13,C16 request: swap.SwapOutRequest != nil && swap.SwapInRequest == nil
 //@ table getSwapOutSenderStates set Agreed State_SwapOutSender_PayFeeInvoice State_SwapOutSender_AwaitTxBroadcastedMessage State_SwapOutSender_AwaitTxConfirmation State_SwapOutSender_ValidateTxAndPayClaimInvoice State_SwapOutSender_ClaimSwap
@@ -324,7 +332,7 @@ package swap
 //@ table getSwapOutSenderStates onlyin @C01,C04,C05 ValidateTxAndPayClaimInvoiceAction PayState
 
 // ---- swap-in receiver (taker, responder) ----
-//@ stateunits getSwapInReceiverStates C01 C04 C05 C06 C11 C12 C13 C16 C23
+//@ stateunits getSwapInReceiverStates C01 C04 C05 C06 C11 C12 C13 C16 C17 C23
 //@ entryinv getSwapInReceiverStates Default @C01,C04,C11,C12,C13,C16 fresh: swap.SwapOutRequest == nil && swap.SwapInRequest == nil && swap.SwapOutAgreement == nil && swap.SwapInAgreement == nil && swap.OpeningTxBroadcasted == nil && swap.Role == SWAPROLE_RECEIVER
 //@ table getSwapInReceiverStates set Started State_SwapInReceiver_CreateSwap State_SwapInReceiver_SendAgreement State_SwapInReceiver_AwaitTxBroadcastedMessage State_SwapInReceiver_AwaitTxConfirmation State_SwapInReceiver_ValidateTxAndPayClaimInvoice State_SwapInReceiver_ClaimSwap State_SwapInReceiver_SendPrivkey State_SwapInReceiver_SendCoopClose State_ClaimedPreimage State_ClaimedCoop
 //@ entryinv getSwapInReceiverStates Started @C01,C04,C11,C12,C13,C16 request: swap.SwapInRequest != nil && swap.SwapOutRequest == nil
@@ -486,7 +494,7 @@ package swap
 //@ ensures result == 42081
 
 // ---- swap-in sender (maker, initiator) ----
-//@ stateunits getSwapInSenderStates C07 C08 C12 C15 C16 C22 C23 C26
+//@ stateunits getSwapInSenderStates C07 C08 C12 C15 C16 C17 C22 C23 C26
 //@ entryinv getSwapInSenderStates Default @C07,C08,C12,C15,C16,C22,C26 fresh: swap.SwapOutRequest == nil && swap.SwapInRequest == nil && swap.SwapOutAgreement == nil && swap.SwapInAgreement == nil && swap.OpeningTxBroadcasted == nil && ghost.opened == 0
 //@ table getSwapInSenderStates set Started State_SwapInSender_CreateSwap State_SwapInSender_SendRequest State_SwapInSender_AwaitAgreement State_SwapInSender_BroadcastOpeningTx State_SwapInSender_SendTxBroadcastedMessage State_SwapInSender_AwaitClaimPayment State_WaitCsv State_SwapInSender_ClaimSwapCsv State_SwapInSender_ClaimSwapCoop State_SendCancel State_SwapCanceled State_ClaimedPreimage State_ClaimedCsv State_ClaimedCoop
 //@ entryinv getSwapInSenderStates Started @C07,C08,C12,C15,C16,C22,C26 request: swap.SwapInRequest != nil && swap.SwapOutRequest == nil && swap.SwapInRequest.Amount <= 9223372036854775
@@ -503,7 +511,7 @@ package swap
 //@ stepinv getSwapInSenderStates Opened @C07,C08 record-kept: old(swap.OpeningTxBroadcasted) != nil ==> (swap.OpeningTxBroadcasted == old(swap.OpeningTxBroadcasted) && swap.OpeningTxBroadcasted.TxId == old(swap.OpeningTxBroadcasted.TxId) && swap.OpeningTxBroadcasted.ScriptOut == old(swap.OpeningTxBroadcasted.ScriptOut))
 
 // ---- swap-out receiver (maker, responder) ----
-//@ stateunits getSwapOutReceiverStates C07 C08 C11 C12 C15 C16 C22 C23 C26
+//@ stateunits getSwapOutReceiverStates C07 C08 C11 C12 C15 C16 C17 C22 C23 C26
 //@ entryinv getSwapOutReceiverStates Default @C07,C08,C11,C12,C15,C16,C22,C26 fresh: swap.SwapOutRequest == nil && swap.SwapInRequest == nil && swap.SwapOutAgreement == nil && swap.SwapInAgreement == nil && swap.OpeningTxBroadcasted == nil && ghost.opened == 0
 //@ table getSwapOutReceiverStates set Started State_SwapOutReceiver_CreateSwap State_SwapOutReceiver_SendFeeInvoice State_SwapOutReceiver_AwaitFeeInvoicePayment State_SwapOutReceiver_BroadcastOpeningTx State_SwapOutReceiver_SendTxBroadcastedMessage State_SwapOutReceiver_AwaitClaimInvoicePayment State_WaitCsv State_SwapOutReceiver_ClaimSwapCsv State_SwapOutReceiver_ClaimSwapCoop State_ClaimedPreimage State_ClaimedCsv State_ClaimedCoop
 //@ entryinv getSwapOutReceiverStates Started @C07,C08,C11,C12,C15,C16,C22,C26 request: swap.SwapOutRequest != nil && swap.SwapInRequest == nil && swap.SwapOutRequest.Amount <= 9223372036854775
